@@ -15,6 +15,7 @@ struct Child {
 };
 void setPipeCapacity(size_t bytes);
 void setStdinReadable(bool readable);       // whether the simulated process's own descriptor 0 counts as readable in select()
+uint64_t vforkFailureCount();               // injected vfork failures in this run
 void setChildMain(void (*fn)(Child*));     // scripted program run by every exec'ed child (harness-supplied); sets c->exitCode
 const std::vector<Child*>& allChildren();
 Child* findChild(int pid);
